@@ -1,0 +1,1 @@
+//! Hooks owned by property C10 (feature `verif-hooks`).
